@@ -8,7 +8,9 @@ import (
 	"fmt"
 	"math"
 	"os"
+	"reflect"
 	"runtime"
+	"sort"
 	"strconv"
 	"strings"
 	"time"
@@ -121,3 +123,102 @@ func verifMapOrder(site string)                     {}
 func verifMapOrderArg() string                      { return "" }
 func verifSteps() int                               { return 0 }
 func verifSymbolic() bool                           { return false }
+
+// verifDeepDigest: structural digest of everything reachable from the roots (slices up to their
+// capacity, unexported fields included). The engine replaces it by a constant: there the frozen-
+// memory monitor decides; natively the digest before/after confirms a reported write.
+func verifDeepDigest(roots ...interface{}) string {
+	var sb strings.Builder
+	seen := map[uintptr]bool{}
+	var walk func(v reflect.Value, depth int)
+	walk = func(v reflect.Value, depth int) {
+		if depth > 200 {
+			sb.WriteString("<deep>")
+			return
+		}
+		switch v.Kind() {
+		case reflect.Ptr:
+			if v.IsNil() {
+				sb.WriteString("nil;")
+				return
+			}
+			if seen[v.Pointer()] {
+				sb.WriteString("seen;")
+				return
+			}
+			seen[v.Pointer()] = true
+			sb.WriteString("&")
+			walk(v.Elem(), depth+1)
+		case reflect.Interface:
+			if v.IsNil() {
+				sb.WriteString("nil;")
+				return
+			}
+			sb.WriteString(v.Elem().Type().String() + ":")
+			walk(v.Elem(), depth+1)
+		case reflect.Struct:
+			sb.WriteString("{")
+			for i := 0; i < v.NumField(); i++ {
+				walk(v.Field(i), depth+1)
+			}
+			sb.WriteString("}")
+		case reflect.Slice:
+			if v.IsNil() {
+				sb.WriteString("nil;")
+				return
+			}
+			full := v.Slice3(0, v.Len(), v.Cap()).Slice(0, v.Cap())
+			sb.WriteString(fmt.Sprintf("[%d/%d:", v.Len(), v.Cap()))
+			for i := 0; i < full.Len(); i++ {
+				walk(full.Index(i), depth+1)
+			}
+			sb.WriteString("]")
+		case reflect.Array:
+			for i := 0; i < v.Len(); i++ {
+				walk(v.Index(i), depth+1)
+			}
+		case reflect.Map:
+			keys := v.MapKeys()
+			strs := make([]string, len(keys))
+			for i, k := range keys {
+				var kb strings.Builder
+				kb.WriteString(fmt.Sprint(k))
+				strs[i] = kb.String()
+			}
+			idx := make([]int, len(keys))
+			for i := range idx {
+				idx[i] = i
+			}
+			sort.Slice(idx, func(a, b int) bool { return strs[idx[a]] < strs[idx[b]] })
+			sb.WriteString("map{")
+			for _, i := range idx {
+				sb.WriteString(strs[i] + "=>")
+				walk(v.MapIndex(keys[i]), depth+1)
+			}
+			sb.WriteString("}")
+		case reflect.String:
+			sb.WriteString(strconv.Quote(v.String()) + ";")
+		case reflect.Bool:
+			sb.WriteString(strconv.FormatBool(v.Bool()) + ";")
+		case reflect.Int, reflect.Int8, reflect.Int16, reflect.Int32, reflect.Int64:
+			sb.WriteString(strconv.FormatInt(v.Int(), 10) + ";")
+		case reflect.Uint, reflect.Uint8, reflect.Uint16, reflect.Uint32, reflect.Uint64, reflect.Uintptr:
+			sb.WriteString(strconv.FormatUint(v.Uint(), 10) + ";")
+		case reflect.Float32, reflect.Float64:
+			sb.WriteString(strconv.FormatUint(math.Float64bits(v.Float()), 16) + ";")
+		case reflect.Func:
+			if v.IsNil() {
+				sb.WriteString("nilfunc;")
+			} else {
+				sb.WriteString("func;")
+			}
+		default:
+			sb.WriteString(v.Kind().String() + ";")
+		}
+	}
+	for _, r := range roots {
+		walk(reflect.ValueOf(r), 0)
+		sb.WriteString("|")
+	}
+	return sb.String()
+}
